@@ -66,6 +66,12 @@ let handle (line : string) : string =
         | _ -> false in
       (if ok then "INV-OK " else "INV-DIFF ") ^ opt str_poly p1 ^ " " ^ opt str_poly p2
   | "jinvbig" :: _ -> "INV-OK"
+  | "khhuge" :: r ->
+    (* the implementation printed the Euler characteristic of Kh of the long diagram; the model evaluates the
+       Jones polynomial of the short isotopic diagram *)
+    let (_, r) = parse_link r in
+    let (l2, _) = parse_link r in
+    opt str_poly (jones_model l2)
   | _ -> failwith "bad case"
 
 let () = run_lines handle
